@@ -30,10 +30,16 @@ for d in sorted(glob.glob(os.path.join(HERE, "seeded", "*"))):
             bad += 1
             continue
         t0 = time.time()
-        r = subprocess.run([os.path.join(HERE, "check"), prop, "--tier", a.tier, "--no-evidence", "--jobs", a.jobs],
-                           env=dict(os.environ, VERIF_REPO=scratch), capture_output=True, text=True, cwd=HERE)
-        keys = [l.split(" count=")[0].replace("violation key=", "") for l in r.stdout.splitlines() if l.startswith("violation key=")]
-        detected = r.returncode == 1 and any(l.startswith("VIOLATION property=%s " % prop) for l in r.stdout.splitlines())
+        # a change may sit in code that another property anchors (e.g. ObsTime for a C05 seed): when the seed's own check stays
+        # silent, the checks its meta.json lists as 'reported_by' are run as well
+        own = prop
+        for prop in [own] + [c for c in meta.get("reported_by", []) if c != own]:
+            r = subprocess.run([os.path.join(HERE, "check"), prop, "--tier", a.tier, "--no-evidence", "--jobs", a.jobs],
+                               env=dict(os.environ, VERIF_REPO=scratch), capture_output=True, text=True, cwd=HERE)
+            keys = [l.split(" count=")[0].replace("violation key=", "") for l in r.stdout.splitlines() if l.startswith("violation key=")]
+            detected = r.returncode == 1 and any(l.startswith("VIOLATION property=%s " % prop) for l in r.stdout.splitlines())
+            if detected:
+                break
         if r.returncode not in (0, 1) or (r.returncode == 1 and not detected):
             print("%-50s %s exit=%d: the check itself failed (no verdict)" % (name, prop, r.returncode),
                   [l[:200] for l in r.stdout.splitlines() if l.startswith("MACHINERY")][:2])
